@@ -30,6 +30,8 @@ OPS = [
     ("all-extensions/html/string", "s", b"Title: T\n\n# H\n\ntext[^f] {++a++} $m$ \"q\"\n\n<div>*h*</div>\n\n[^f]: n\n", D | E["PROCESS_HTML"] | E["NO_LABELS"] | E["COMPLETE"] | E["OBFUSCATE"], 0),
     ("bom+crlf/html/to_data", "d", b"\xef\xbb\xbfTitle: B\r\n\r\n# H\r\n\r\ntext \"q\"\r\n", D, 0),
     ("bom-no-metadata/latex/to_data", "d", b"\xef\xbb\xbfplain *text* only\n", D, 2),
+    ("mismatched-delimiters/html/string", "s", b"{++ins--} [a) (b] *c_ \"d' {==e~~} <f] $g\\\\) {--h++} [^i) {~~j==} `k'' {>>l--}\n\n| m ]\n|--|\n\n[n]: <o\n", D, 0),
+    ("mismatched-delimiters/latex/to_data", "d", b"text {++ins--} [a) (b] *c_ \"d' {==e~~} end\n", D, 2),
     ("engine-reuse/convert html", "E0", NOTES, D, 0),
     ("engine-reuse/convert latex", "E0", NOTES, D, 2),
     ("engine-reuse/parse+export opml", "E1", NOTES, D, 9),
@@ -42,8 +44,10 @@ OPS = [
     ("engine-reuse/latex-mode-metadata latex", "E0", b"Title: B\nlatex mode: beamer\nlatex header level: 2\n\n# S\n\n## F\n\ntext\n", D, 2),
 ]
 
-def run_history(hist, want_all=False):
+def run_history(hist, want_all=False, perturb=0):
     """executed in a forked child: returns [(output bytes, source_unchanged)] per op and the global-state key"""
+    if perturb:          # glibc fills every malloc'ed and freed block with a byte pattern: memory read before it is written shows up as different output
+        ctypes.CDLL(None).mallopt(-6, perturb)
     L = mmd.lib(); L.vp_pool(0)
     engine = None; res = []
     for oi in hist:
@@ -97,7 +101,7 @@ def run(tier):
     STATE, regs = G.hasher()
     rep.rule = ("breadth-first search over conversion histories in one process: %d operations (obfuscated and plain e-mail autolinks, notes/citations/glossary, cross references, metadata + variables, CriticMarkup accept, an OPML source, HTML with assets, EPUB, "
                 "compat mode; through mmd_string_convert, mmd_d_string_convert_to_data and ONE reused engine over a caller-owned text that is replaced between conversions: convert, parse+export, metadata query, documents with and without language/header-level/latex-mode metadata); each history runs in a fresh forked process; state key = hash of every writable "
-                "global of the library (inventory from nm on the current objects: %s) + everything a reused engine carries over (options, languages, stack sizes); only new keys are expanded; invariant on every transition: the bytes equal the same conversion done first in a fresh process "
+                "global of the library (inventory from nm on the current objects: %s) + everything a reused engine carries over (options, languages, stack sizes); only new keys are expanded; plus every operation under two heap fill patterns (memory read before written); invariant on every transition: the bytes equal the same conversion done first in a fresh process "
                 "and the caller's source is unchanged (except the documented OPML replacement)" % (len(OPS), ", ".join(sorted({r[2] for r in regs}))))
     rep.assumptions = ["libc rand() is re-seeded and time() pinned before every conversion: identifiers that are unique by design are outside the statement", "random anchors/labels are not requested"]
     rep.extra["global_inventory"] = [dict(symbol=n, object=o, size=s) for _, s, n, o in regs]
@@ -109,6 +113,17 @@ def run(tier):
         r = in_child(run_history, [oi])
         if r[0] in ("error", "crash"): rep.internal_errors.append("reference run of %s failed: %r" % (OPS[oi][0], r[1])); return rep.finish()
         ref[oi] = r[0][0][0]
+    # uninitialised memory: every operation alone under two heap fill patterns must give the reference bytes
+    t1 = time.time(); nper = 0
+    for oi in range(len(OPS)):
+        for pat in (0x5A, 0xA5):
+            r = in_child(run_history, [oi], False, pat); nper += 1
+            if r[0] in ("error", "crash"):
+                rep.add_violation("history:crash-under-heap-fill:%s" % OPS[oi][0].split("/")[0], "%s crashed with malloc/free fill pattern 0x%02X: %r" % (OPS[oi][0], pat, r[1]), dict(history=[OPS[oi][0]], fill=pat), replay=dict(kind="c05", hist=[oi]))
+            elif r[0][0][0] != ref[oi]:
+                rep.add_violation("history:output-depends-on-uninitialised-memory:%s" % OPS[oi][0].split("/")[0], "%s gives different bytes when malloc'ed and freed memory is filled with 0x%02X" % (OPS[oi][0], pat),
+                                  dict(history=[OPS[oi][0]], fill=pat, got=(r[0][0][0] or b"")[:300].decode("utf-8", "replace"), fresh=(ref[oi] or b"")[:300].decode("utf-8", "replace")), replay=dict(kind="c05", hist=[oi]))
+    rep.add_level("heap-fill", nper, nper, True, time.time() - t1, nper, "every operation alone under glibc M_PERTURB fill patterns 0x5A and 0xA5: bytes equal the unperturbed reference")
     init_key = in_child(lambda: STATE())
     seen = {init_key}; frontier = [[]]; states = 1; trans = 0; lvl = 0; complete = True
     from concurrent.futures import ThreadPoolExecutor
